@@ -18,6 +18,7 @@ import (
 	"github.com/spf13/cobra"
 
 	"github.com/coreruleset/crs-toolchain/v2/context"
+	"github.com/coreruleset/crs-toolchain/v2/internal/verifhook"
 	"github.com/coreruleset/crs-toolchain/v2/regex"
 	"github.com/coreruleset/crs-toolchain/v2/regex/operators"
 	"github.com/coreruleset/crs-toolchain/v2/regex/processors"
@@ -194,6 +195,7 @@ func findRegexLine(lines [][]byte, ruleId string, chainOffset uint8) (int, bool)
 			if idRegex.Match(line) {
 				foundRule = true
 				if chainOffset == 0 {
+					verifhook.Emit("upd.target", "index", index-1, "rule", ruleId, "chain", 0)
 					return index - 1, index > 0
 				}
 			}
@@ -206,10 +208,12 @@ func findRegexLine(lines [][]byte, ruleId string, chainOffset uint8) (int, bool)
 			}
 			chainCount++
 			if chainCount == chainOffset {
+				verifhook.Emit("upd.target", "index", index, "rule", ruleId, "chain", int(chainOffset))
 				return index, true
 			}
 		}
 	}
+	verifhook.Emit("upd.target", "index", -1, "rule", ruleId, "chain", int(chainOffset))
 	return 0, false
 }
 
